@@ -80,10 +80,13 @@ func (k Keeper) ApplyVestingSchedule(
 			return nil, false, false, errorsmod.Wrapf(types.ErrApplyShedule, "account %s can only accept grants from account %s", funded, vestingAcc.FunderAddress)
 		}
 
+		// The grant's periods are relative to the grant's own start time.
+		// addGrant (via DisjunctPeriods) aligns the two schedules itself and
+		// moves the account start to the earlier of the two start times.
 		err := k.addGrant(
 			ctx,
 			vestingAcc,
-			types.Min64(startTime.Unix(), vestingAcc.StartTime.Unix()),
+			startTime.Unix(),
 			lockupPeriods,
 			vestingPeriods,
 			coins,
